@@ -1,10 +1,36 @@
 (* C07 — accepted history is immutable: once a version has been accepted (during h1), then
    after ANY further history h2 (more versions, snapshots, rejected requests, other clients,
    reopen), asking for the child of its parent returns that same id, parent and payload. *)
-From TSS Require Import Seq proofs.Inv proofs.Agree proofs.Hist.
+From TSS Require Import Seq proofs.Inv proofs.Agree proofs.Hist Http proofs.UrgencyArith proofs.HttpProps proofs.HttpReach proofs.HttpLib.
 
 Theorem C07_history_immutable : forall k cfg h1 h2 c ver, oracle_ok (h1 ++ h2) ->
   In ver (accepted c h1 (responses k cfg h1)) ->
   responses k cfg (h1 ++ h2 ++ [(OGetChild c (v_parent ver), noenv)]) =
   responses k cfg (h1 ++ h2) ++ [RFound ver].
 Proof. exact history_immutable_k. Qed.
+
+(* the same as HTTP clients see it, malformed requests included: h1 and h2 are ANY HTTP histories
+   (any routes, methods, headers, bodies, clients); if the add-version request (client c allowed,
+   body accepted) was answered 200 with X-Version-Id v, then after h2 a get-child-version request
+   for its parent p is answered 200 with X-Version-Id v, X-Parent-Version-Id p, the history-segment
+   content type and exactly the uploaded body — on both backends *)
+Theorem C07_http_history_immutable : forall k cfg allow h1 h2 c p cs E E' ct0 cs0 v xs,
+  cfg_ok cfg -> client_id_header allow (COk c) = inl c -> body_refused cs = false ->
+  let av := mkReq MPost (PAddVersion (IdOk p)) (COk c) CTHistory cs in
+  let gcv := mkReq MGet (PGetChild (IdOk p)) (COk c) ct0 cs0 in
+  horacle_ok ((h1 ++ (av, E) :: h2) ++ [(gcv, E')]) ->
+  nth_error (hresponses k cfg allow (h1 ++ (av, E) :: h2)) (length h1) = Some (mkResp 200 (Some v) None xs None [] true) ->
+  hresponses k cfg allow ((h1 ++ (av, E) :: h2) ++ [(gcv, E')]) =
+  hresponses k cfg allow (h1 ++ (av, E) :: h2) ++ [mkResp 200 (Some v) (Some p) None (Some RTHistory) (body_of cs) true].
+Proof. exact http_history_immutable. Qed.
+
+(* non-vacuity: a first request for a new client on a non-nil parent, a refused request, another
+   client's upload and a snapshot in between *)
+Example C07_http_nonvacuous :
+  let av := mkReq MPost (PAddVersion (IdOk 7%N)) (COk 5%N) CTHistory [mkChunk 2 [1%N; 2%N]] in
+  let h2 := [(mkReq MPost (PAddVersion IdBad) (COk 5%N) CTHistory [], mkEnv 0 0);
+             (mkReq MPost (PAddVersion (IdOk 0%N)) (COk 6%N) CTHistory [mkChunk 1 [3%N]], mkEnv 11 0);
+             (mkReq MPost (PAddSnapshot (IdOk 10%N)) (COk 5%N) CTSnapshot [mkChunk 1 [9%N]], mkEnv 0 5)] in
+  nth_error (hresponses BSqlite default_config None ([] ++ (av, mkEnv 10 0) :: h2)) 0 =
+    Some (mkResp 200 (Some 10%N) None (Some UHigh) None [] true) /\ cfg_ok default_config.
+Proof. split; [vm_compute; reflexivity|vm_compute; repeat split; intros H; discriminate H]. Qed.
